@@ -1,7 +1,7 @@
 #!/bin/sh
 # Runs the repository's own test suite (guard off) and compares the set of passing
 # tests with the 389 stable tests of /root/.vp/BASELINE.json.
-cd /repo || exit 2
+cd "${BASELINE_REPO:-/repo}" || exit 2
 cargo test --workspace --no-fail-fast --offline --lib --bins --tests 2>&1 | python3 -c '
 import sys, re, json
 crate=None; passed=set()
